@@ -330,6 +330,23 @@ func LockRelease(ls *LockState, write bool) {
 	}
 }
 
+// AfterRecv is called by instrumented code right after a channel receive completed: with extra scheduling points on,
+// the receiver parks before it touches what it was handed.
+//
+//go:norace
+func AfterRecv() {
+	w := W()
+	if w == nil || w.sched == nil {
+		return
+	}
+	w.lock()
+	on := w.sched.cfg.YieldOnUnlock && !w.sched.killed
+	w.unlock()
+	if on {
+		w.yieldIfLive("recv")
+	}
+}
+
 // yieldIfLive is a scheduling point that never raises the kill sentinel itself (releases run in deferred calls,
 // also while a killed task unwinds).
 //
